@@ -4,6 +4,7 @@ import (
 	"fmt"
 	"go/token"
 	"go/types"
+	"regexp"
 	"sort"
 	"strings"
 
@@ -282,19 +283,24 @@ func init() {
 		}})
 }
 
+// srPrefix matches the names scalarReplaceTransients gives the locals that stand for the fields of a method object.
+var srPrefix = regexp.MustCompile(`^sr[0-9]+_`)
+
 func localName(v ssa.Value) string {
 	if al, ok := v.(*ssa.Alloc); ok && al.Comment != "" {
+		// a field of a method object turned back into a local goes by the field's name
+		name := srPrefix.ReplaceAllString(al.Comment, "")
 		// a parameter spilled to a local slot goes by the parameter's reviewed name
 		if refs := al.Referrers(); refs != nil {
 			for _, ref := range *refs {
 				if st, ok := ref.(*ssa.Store); ok && st.Addr == ssa.Value(al) {
-					if p, ok := st.Val.(*ssa.Parameter); ok && p.Name() == al.Comment {
+					if p, ok := st.Val.(*ssa.Parameter); ok && p.Name() == name {
 						return reviewedParamName(p)
 					}
 				}
 			}
 		}
-		return al.Comment
+		return name
 	}
 	for _, ref := range *v.Referrers() {
 		if d, ok := ref.(*ssa.DebugRef); ok {
